@@ -39,6 +39,9 @@ def main():
     props = [p for p in a.props.split(",") if p] or ([meta["property"]] if "property" in meta else [])
     if a.all:
         props = ["C%02d" % i for i in range(1, 21)]
+    # the demonstrations were written against /tmp/shims (what their authors were given): a copy of /verif/shims
+    if not os.path.exists("/tmp/shims"):
+        shutil.copytree(os.path.join(ROOT, "shims"), "/tmp/shims")
     base = tempfile.mkdtemp(prefix="mut_", dir=os.environ.get("TMPDIR", "/tmp"))
     wt = os.path.join(base, "repo")
     res = {"at": time.strftime("%Y-%m-%dT%H:%M:%S"), "tier": a.tier, "checks": {}}
